@@ -19,6 +19,16 @@ Definition factor (dev u : Q) : Q := (1 + dev - 2 * dev * u)%Q.
 Definition expire_deviation : Q := (1 # 20)%Q.
 Definition around (f : Q) (base : Z) : Z := Qfloor (f * inject_Z base).
 
+(* option.go newOptions: an option that is not given, or given with a duration <= 0, leaves the package default
+   (defaultExpire = 7 days, defaultNotFoundExpire = 1 minute; hand-written, tied to the sources by Link.link_defaults) *)
+Definition default_expire : Z := 7 * 24 * 3600 * 1000000000.
+Definition default_nfexpire : Z := 60 * 1000000000.
+Definition effective (given : option Z) (dflt : Z) : Z :=
+  match given with
+  | Some d => if d <=? 0 then dflt else d
+  | None => dflt
+  end.
+
 (* options.go: Expire / NotFoundExpire (ns) ; cachedsql.go:14 the index/primary safety gap (ns) *)
 Record cfg := mkC { expire : Z; nfexpire : Z; gap : Z }.
 
